@@ -333,6 +333,33 @@ def main():
         sys.exit(0 if rc == 0 else 1)
 
     # ---- S0/S1 -------------------------------------------------------------
+    # coordination with the seeded-change runs of the build round (tools/with_patch.sh holds
+    # /tmp/repo.lock while /repo carries a patch): with VCHECK_REPO_LOCK=1 everything that reads
+    # /repo's sources (translators, cargo build) happens while holding that lock.  Off by default.
+    locked = False
+    if os.environ.get("VCHECK_REPO_LOCK") == "1":
+        while True:
+            try:
+                os.mkdir("/tmp/repo.lock"); locked = True; break
+            except FileExistsError:
+                time.sleep(10)
+    try:
+        return main_locked(pid, tier, seed, spec, t0, log, violations, known_hits, lambda: release_lock(locked))
+    finally:
+        release_lock(locked)
+
+
+_released = [False]
+def release_lock(locked):
+    if locked and not _released[0]:
+        _released[0] = True
+        try:
+            os.rmdir("/tmp/repo.lock")
+        except OSError:
+            pass
+
+
+def main_locked(pid, tier, seed, spec, t0, log, violations, known_hits, unlock):
     tr = stage_translate(spec, log)
     tr_fail = [(t, o) for (t, rc, o) in tr if rc != 0]
     rc_coq, out_coq, dt_coq = stage_coq(pid, spec, log)
@@ -347,6 +374,7 @@ def main():
     # ---- S2/S3 -------------------------------------------------------------
     summary, mism, coq_errors, case_files = None, [], [], []
     rc_cargo, out_cargo, _ = stage_cargo(spec, log)
+    unlock()
     harness_ok = False
     if rc_cargo == 0:
         rc_h, out_h, summary = stage_harness(pid, spec, tier, seed, log)
